@@ -382,7 +382,8 @@ PROPS['C04'] = dict(
         dict(name='pipelab', bin='pipelab', variant='asan', mode='c04',
              quick=300000, thorough=6000000,
              require=['c04.negotiations', 'c04.inputs_checked', 'op.sub_alloc',
-                      'op.set_flow_def_bad', 'subpipe.cases', 'op.super_released_before_subs']),
+                      'op.set_flow_def_bad', 'subpipe.cases', 'op.super_released_before_subs',
+                      'lifecycle.cases', 'lc.sub_alloc', 'lc.loop_dispatches']),
     ],
 )
 
@@ -431,7 +432,7 @@ PROPS['C01'] = dict(
     jobs=[
         dict(name='pipelab', bin='pipelab', variant='asan', mode='c01',
              quick=300000, thorough=6000000, leak_check=True,
-             require=['c01.accounted_cases']),
+             require=['c01.accounted_cases', 'lifecycle.cases', 'c01.released_with_request_pending']),
         dict(name='pipelab-requests', bin='pipelab', variant='asan', mode='c12',
              args=['--burst', '0'], quick=60000, thorough=1500000, leak_check=True),
         # bursts of registrations overflowing the 255-slot out-of-band queue of a
